@@ -354,7 +354,7 @@ def run_chunk(spec):
     observe.quiet_logs()
     res = Result()
     tier, ci = spec["tier"], spec["chunk"]
-    wd = Watchdog(res, 120.0)
+    wd = Watchdog(res, 400.0)
     only = spec.get("only_case")
     n_async = 60 if tier == "quick" else 2500
     n_sync = 10 if tier == "quick" else 150
